@@ -533,6 +533,9 @@ func runParse(c *ctx, prop string) error {
 			}
 		}
 	}
+	if prop == "C13" {
+		c13ByteLevel(c, rng, shards)
+	}
 	c.res.Rule = "documents from the grammar-directed generator (every step kind and shorthand, primary x alias key combinations, three plugin forms, matrices with adjustments, caches, unknown extras with nested values of every YAML scalar kind incl. timestamps / huge ints / integral floats, groups nested to depth 4, YAML look-alike strings) rendered as block YAML, flow YAML or JSON, through the real Parse; compared with the model: typed pipeline dump, warning kinds in order, hard-error class, JSON normal form (order-preserving). Distinct by document text."
 	mm, total, err := core.RunSessions(c.driver, shards, 20, 0)
 	c.res.ModelRequests = total
@@ -770,6 +773,18 @@ func c03CommandRules(c *ctx, desc map[string]any, i int, im, om vl.OMap, st *pip
 	}
 	alias("label", "name")
 	alias("key", "id", "identifier")
+	// signature: every key of the input signature mapping survives
+	if sv, ok := findKV(im, "signature"); ok {
+		if sm, ok := sv.(vl.OMap); ok {
+			ov, _ := findKV(om, "signature")
+			osm, _ := ov.(vl.OMap)
+			for _, kv := range sm {
+				if _, ok := findKV(osm, kv.K); !ok {
+					fail(fmt.Sprintf("key %q inside signature is dropped by parse+marshal", kv.K), "", "", "signature-unknown-keys")
+				}
+			}
+		}
+	}
 	// plugins: ordered list of single-entry objects keyed by canonical source, empty config as null
 	if pl, ok := findKV(om, "plugins"); ok {
 		l, _ := pl.([]any)
@@ -857,4 +872,118 @@ func hasEmptyishSkip(v any) bool {
 		}
 	}
 	return false
+}
+
+// c13ByteLevel: support for the byte-level half of C13 (not a proof): renderings of generated documents
+// mutated at the byte level go through Parse with recover and a timeout; every input the first stage
+// accepts continues into the model correspondence and the completeness oracles.
+func c13ByteLevel(c *ctx, rng *core.Rand, shards []*core.Session) {
+	n := 3000
+	if c.thorough() {
+		n = 60000
+	}
+	inserts := []string{"*a", "&a ", "<<: ", "\t", "{", "}", "[", "]", "\"", "'", ": ", "- ", "\n", "|", ">", "!!binary ", "? ", "%YAML 1.1\n---\n", "\x00", "\xff", "\u2028", "#", "---\n", "...\n"}
+	for i := 0; i < n; i++ {
+		o := &gen.Opts{R: rng, Str: parseStr, Key: gen.DefaultKey, UntypedExotic: true, MaxGroupDepth: 2, MaxMapSize: 10}
+		src, _ := renderStyles(rng, o.Pipeline())
+		if len(src) == 0 {
+			continue
+		}
+		b := append([]byte(nil), src...)
+		for k := 1 + rng.Intn(4); k > 0 && len(b) > 0; k-- {
+			pos := rng.Intn(len(b))
+			switch rng.Intn(6) {
+			case 0:
+				b[pos] ^= byte(1 << uint(rng.Intn(8)))
+			case 1:
+				b = append(b[:pos], b[pos+1:]...)
+			case 2:
+				ins := core.Pick(rng, inserts)
+				b = append(b[:pos], append([]byte(ins), b[pos:]...)...)
+			case 3:
+				b = b[:pos]
+			case 4:
+				j := rng.Intn(len(b))
+				if j > pos {
+					b = append(b[:pos], b[j:]...)
+				}
+			case 5:
+				// duplicate a line
+				if nl := bytes.IndexByte(b[pos:], '\n'); nl >= 0 {
+					line := append([]byte(nil), b[pos:pos+nl+1]...)
+					b = append(b[:pos], append(line, b[pos:]...)...)
+				}
+			}
+		}
+		type res struct {
+			p   *pipeline.Pipeline
+			err error
+			pn  string
+		}
+		ch := make(chan res, 1)
+		go func() {
+			var r res
+			func() {
+				defer func() {
+					if x := recover(); x != nil {
+						r.pn = fmt.Sprint(x)
+					}
+				}()
+				r.p, r.err = pipeline.Parse(bytes.NewReader(b))
+			}()
+			ch <- r
+		}()
+		var r res
+		select {
+		case r = <-ch:
+		case <-time.After(5 * time.Second):
+			c.res.Fail(core.OracleFailure{What: "Parse did not return within 5s on a mutated document", Input: string(b)})
+			continue
+		}
+		desc := map[string]any{"document": string(b), "mutated": true}
+		c.res.Case("bytes:"+string(b), true)
+		c.res.Hist("bytes.cases")
+		if r.pn != "" {
+			c.res.Fail(core.OracleFailure{What: "Parse panicked on a mutated document: " + r.pn, Input: desc})
+			continue
+		}
+		usable := r.err == nil || warning.Is(r.err)
+		if !usable {
+			c.res.Hist("bytes.hard-error")
+			continue
+		}
+		c.res.Hist("bytes.usable")
+		c.res.OracleChecks++
+		if r.p == nil || r.p.Steps == nil {
+			c.res.Fail(core.OracleFailure{What: "usable result with nil pipeline / step list (mutated document)", Input: desc})
+			continue
+		}
+		for _, st := range r.p.Steps {
+			if st == nil || reflectNil(st) {
+				c.res.Fail(core.OracleFailure{What: "nil step in a usable result (mutated document)", Input: desc})
+			}
+		}
+		if tree, err := decodeTree(b); err == nil {
+			treeV := dump.Any(tree)
+			if want, ok := countEntries(treeV); ok && len(r.p.Steps) != want {
+				c.res.Fail(core.OracleFailure{What: "step count differs from the number of entries (mutated document)", Input: desc, Got: fmt.Sprint(len(r.p.Steps)), Want: fmt.Sprint(want)})
+			}
+			var warns []any
+			flattenWarn(r.err, &warns)
+			if warns == nil {
+				warns = []any{}
+			}
+			if !strings.Contains(vl.Enc(treeV), "<go:") {
+				shards[i%len(shards)].Add(vl.Escape("parse "+vl.Enc(treeV)), vl.Escape("ok "+vl.Enc(dump.Pipeline(r.p))+" "+vl.Enc(warns)))
+			}
+		}
+		_, jerr := json.Marshal(r.p)
+		_, yerr := yaml.Marshal(r.p)
+		if jerr != nil && !strings.Contains(jerr.Error(), "unsupported value") {
+			c.res.Fail(core.OracleFailure{What: "JSON marshalling fails after a usable parse (mutated document)", Input: desc, Got: jerr.Error()})
+		}
+		if yerr != nil {
+			c.res.Fail(core.OracleFailure{What: "YAML marshalling fails after a usable parse (mutated document)", Input: desc, Got: yerr.Error()})
+		}
+	}
 }
